@@ -1,24 +1,39 @@
-//! Compile surface only.
+//! Model of `task::LocalSet` / `spawn_local` / `JoinHandle` for the executor model in runtime.rs.
 use std::future::Future;
 use std::pin::Pin;
 use std::task::{Context, Poll};
 
+pub(crate) struct JoinState<T> {
+    result: Option<Result<T, JoinError>>,
+    finished: bool,
+    abort: bool,
+}
+/// The state block is leaked (never freed): handles and tasks refer to it by raw pointer.
 pub struct JoinHandle<T> {
-    _p: std::marker::PhantomData<T>,
+    st: *mut JoinState<T>,
 }
 impl<T> JoinHandle<T> {
     pub fn is_finished(&self) -> bool {
-        unimplemented!("tokio model: no executor")
+        unsafe { (*self.st).finished }
     }
     pub fn abort(&self) {
-        unimplemented!("tokio model: no executor")
+        unsafe { (*self.st).abort = true }
     }
 }
 impl<T> Unpin for JoinHandle<T> {}
 impl<T> Future for JoinHandle<T> {
     type Output = Result<T, JoinError>;
     fn poll(self: Pin<&mut Self>, _cx: &mut Context<'_>) -> Poll<Self::Output> {
-        unimplemented!("tokio model: no executor")
+        let p = self.st;
+        let st = unsafe { &mut *p };
+        if st.finished {
+            match st.result.take() {
+                Some(r) => Poll::Ready(r),
+                None => panic!("tokio model: JoinHandle polled after completion"),
+            }
+        } else {
+            Poll::Pending
+        }
     }
 }
 impl<T> std::fmt::Debug for JoinHandle<T> {
@@ -27,20 +42,20 @@ impl<T> std::fmt::Debug for JoinHandle<T> {
     }
 }
 pub struct JoinError {
-    _p: (),
+    cancelled: bool,
 }
 impl JoinError {
     pub fn is_cancelled(&self) -> bool {
-        unimplemented!()
+        self.cancelled
     }
     pub fn is_panic(&self) -> bool {
-        unimplemented!()
+        !self.cancelled
     }
     pub fn into_panic(self) -> Box<dyn std::any::Any + Send + 'static> {
-        unimplemented!()
+        unimplemented!("tokio model: panics are not modelled")
     }
     pub fn try_into_panic(self) -> Result<Box<dyn std::any::Any + Send + 'static>, JoinError> {
-        unimplemented!()
+        Err(self)
     }
 }
 impl std::fmt::Debug for JoinError {
@@ -55,35 +70,194 @@ impl std::fmt::Display for JoinError {
 }
 impl std::error::Error for JoinError {}
 
+/// A spawned task: the user's future plus the join state it reports into. Dropping a task that has
+/// not finished (LocalSet dropped = turmoil's crash) runs the future's destructor and reports
+/// "cancelled".
+struct TaskFut<F: Future> {
+    // not an Option<F>: the niche of a coroutine's discriminant makes CBMC lose constant propagation
+    fut: std::mem::ManuallyDrop<F>,
+    live: bool,
+    st: *mut JoinState<F::Output>,
+}
+impl<F: Future> Future for TaskFut<F> {
+    type Output = ();
+    fn poll(self: Pin<&mut Self>, cx: &mut Context<'_>) -> Poll<()> {
+        let this = unsafe { self.get_unchecked_mut() };
+        let st = unsafe { &mut *this.st };
+        if !this.live {
+            return Poll::Ready(());
+        }
+        if st.abort && !st.finished {
+            unsafe { std::mem::ManuallyDrop::drop(&mut this.fut) };
+            this.live = false;
+            st.result = Some(Err(JoinError { cancelled: true }));
+            st.finished = true;
+            return Poll::Ready(());
+        }
+        let r = unsafe { Pin::new_unchecked(&mut *this.fut) }.poll(cx);
+        match r {
+            Poll::Ready(v) => {
+                unsafe { std::mem::ManuallyDrop::drop(&mut this.fut) };
+                this.live = false;
+                st.result = Some(Ok(v));
+                st.finished = true;
+                Poll::Ready(())
+            }
+            Poll::Pending => Poll::Pending,
+        }
+    }
+}
+impl<F: Future> Drop for TaskFut<F> {
+    fn drop(&mut self) {
+        if self.live {
+            unsafe { std::mem::ManuallyDrop::drop(&mut self.fut) };
+            self.live = false;
+        }
+        let st = unsafe { &mut *self.st };
+        if !st.finished {
+            st.result = Some(Err(JoinError { cancelled: true }));
+            st.finished = true;
+        }
+    }
+}
+
+/// A type-erased task WITHOUT `dyn Future`: CBMC resolves an indirect call by signature over every
+/// address-taken function, and `dyn Future<Output = ()>::poll` has the shape of every `Debug::fmt`
+/// in the program (measured: a three-line executor harness wandered through `io::Error`'s Debug
+/// impl and timed out). The two trampolines below have signatures of their own (`TaskPoll` /
+/// `TaskDropped` exist for nothing else), so the candidate set is exactly the spawned task types.
+pub(crate) enum TaskPoll {
+    Done,
+    Waiting,
+}
+pub(crate) struct TaskDropped(u64, u64, u64);
+/// By-value parameter that exists only to make the trampoline signatures unlike any other function
+/// in the program (CBMC matches indirect-call candidates by parameter and return types).
+#[derive(Clone, Copy)]
+pub(crate) struct TaskTag(u64, u64, u64);
+const TAG: TaskTag = TaskTag(1, 2, 3);
+pub(crate) struct Task {
+    data: *mut (),
+    poll: unsafe fn(*mut (), &mut Context<'_>, TaskTag) -> TaskPoll,
+    drop: unsafe fn(*mut (), TaskTag, TaskTag) -> TaskDropped,
+}
+unsafe fn poll_tramp<F: Future>(p: *mut (), cx: &mut Context<'_>, _t: TaskTag) -> TaskPoll {
+    let t = &mut *(p as *mut TaskFut<F>);
+    match Pin::new_unchecked(t).poll(cx) {
+        Poll::Ready(()) => TaskPoll::Done,
+        Poll::Pending => TaskPoll::Waiting,
+    }
+}
+unsafe fn drop_tramp<F: Future>(p: *mut (), _a: TaskTag, _b: TaskTag) -> TaskDropped {
+    drop(Box::from_raw(p as *mut TaskFut<F>));
+    TaskDropped(0, 0, 0)
+}
+impl Drop for Task {
+    fn drop(&mut self) {
+        unsafe { (self.drop)(self.data, TAG, TAG) };
+    }
+}
+/// Tasks live in a fixed inline array: growing a `Vec` goes through `realloc`, whose byte-wise copy
+/// makes CBMC forget which function / object the pointers inside `Task` refer to. Model bound: at
+/// most `MAX_TASKS` tasks are ever spawned on one LocalSet (exceeding it panics).
+pub const MAX_TASKS: usize = 8;
+pub(crate) struct TaskList {
+    slots: [Option<Task>; MAX_TASKS],
+    len: usize,
+}
+impl TaskList {
+    fn new() -> TaskList {
+        TaskList { slots: [None, None, None, None, None, None, None, None], len: 0 }
+    }
+    fn len(&self) -> usize {
+        self.len
+    }
+    fn push(&mut self, t: Option<Task>) {
+        assert!(self.len < MAX_TASKS, "tokio model bound: more than MAX_TASKS tasks on one LocalSet");
+        let i = self.len;
+        // the slot is None: plain store, no destructor of interest
+        let old = std::mem::replace(&mut self.slots[i], t);
+        std::mem::forget(old);
+        self.len += 1;
+    }
+}
+impl std::ops::Index<usize> for TaskList {
+    type Output = Option<Task>;
+    fn index(&self, i: usize) -> &Option<Task> {
+        &self.slots[i]
+    }
+}
+impl std::ops::IndexMut<usize> for TaskList {
+    fn index_mut(&mut self, i: usize) -> &mut Option<Task> {
+        &mut self.slots[i]
+    }
+}
+pub(crate) struct LocalState {
+    tasks: TaskList,
+    polls: usize,
+}
+static mut CURRENT_LOCAL: *mut LocalState = std::ptr::null_mut();
+
 pub struct LocalSet {
-    _p: (),
+    st: *mut LocalState,
 }
 impl LocalSet {
     pub fn new() -> LocalSet {
-        LocalSet { _p: () }
+        LocalSet { st: Box::into_raw(Box::new(LocalState { tasks: TaskList::new(), polls: 0 })) }
     }
     pub fn unhandled_panic(&mut self, _b: crate::runtime::UnhandledPanic) -> &mut Self {
         self
     }
-    pub fn spawn_local<F>(&self, _f: F) -> JoinHandle<F::Output>
+    pub fn spawn_local<F>(&self, f: F) -> JoinHandle<F::Output>
     where
         F: Future + 'static,
         F::Output: 'static,
     {
-        unimplemented!("tokio model: no executor")
+        push_task(self.st, f)
     }
-    pub async fn run_until<F: Future>(&self, _f: F) -> F::Output {
-        unimplemented!("tokio model: no executor")
+    /// tokio: `async fn run_until`; the model returns a named future with the same `.await` surface.
+    pub fn run_until<F: Future>(&self, f: F) -> RunUntil<'_, F> {
+        RunUntil { local: self, fut: f }
     }
-    pub fn block_on<F: Future>(&self, _rt: &crate::runtime::Runtime, _f: F) -> F::Output {
-        unimplemented!("tokio model: no executor")
+    pub fn block_on<F: Future>(&self, rt: &crate::runtime::Runtime, f: F) -> F::Output {
+        rt.block_on(self.run_until(f))
     }
     pub fn enter(&self) -> LocalEnterGuard {
-        unimplemented!("tokio model: no executor")
+        let prev = unsafe { CURRENT_LOCAL };
+        unsafe { CURRENT_LOCAL = self.st };
+        LocalEnterGuard { prev }
+    }
+    /// model-only observers
+    pub fn model_live_tasks(&self) -> usize {
+        let st = unsafe { &*self.st };
+        let mut n = 0;
+        let mut i = 0;
+        while i < st.tasks.len() {
+            if st.tasks[i].is_some() {
+                n += 1;
+            }
+            i += 1;
+        }
+        n
+    }
+    pub fn model_task_polls(&self) -> usize {
+        unsafe { (*self.st).polls }
+    }
+}
+impl Drop for LocalSet {
+    fn drop(&mut self) {
+        // every task is dropped (its destructors run) in spawn order
+        let st = unsafe { Box::from_raw(self.st) };
+        drop(st);
     }
 }
 pub struct LocalEnterGuard {
-    _p: (),
+    prev: *mut LocalState,
+}
+impl Drop for LocalEnterGuard {
+    fn drop(&mut self) {
+        unsafe { CURRENT_LOCAL = self.prev }
+    }
 }
 impl Default for LocalSet {
     fn default() -> Self {
@@ -91,27 +265,105 @@ impl Default for LocalSet {
     }
 }
 
-pub fn spawn_local<F>(_f: F) -> JoinHandle<F::Output>
+fn push_task<F>(ls: *mut LocalState, f: F) -> JoinHandle<F::Output>
 where
     F: Future + 'static,
     F::Output: 'static,
 {
-    unimplemented!("tokio model: no executor")
+    let st = Box::into_raw(Box::new(JoinState { result: None, finished: false, abort: false }));
+    let data = Box::into_raw(Box::new(TaskFut { fut: std::mem::ManuallyDrop::new(f), live: true, st })) as *mut ();
+    let task = Task { data, poll: poll_tramp::<F>, drop: drop_tramp::<F> };
+    unsafe { (*ls).tasks.push(Some(task)) };
+    JoinHandle { st }
+}
+
+/// tokio's `RunUntil`: poll the main future first; if it is not ready give every queued task one
+/// poll (spawn order; tasks spawned during the round are polled in the same round).
+pub struct RunUntil<'a, F> {
+    local: &'a LocalSet,
+    fut: F,
+}
+impl<F: Future> Future for RunUntil<'_, F> {
+    type Output = F::Output;
+    fn poll(self: Pin<&mut Self>, cx: &mut Context<'_>) -> Poll<F::Output> {
+        let this = unsafe { self.get_unchecked_mut() };
+        let ls = this.local.st;
+        let prev = unsafe { CURRENT_LOCAL };
+        unsafe { CURRENT_LOCAL = ls };
+        let r = unsafe { Pin::new_unchecked(&mut this.fut) }.poll(cx);
+        if r.is_pending() {
+            let mut i = 0;
+            while i < MAX_TASKS {
+                let n = unsafe { (*ls).tasks.len() };
+                if i >= n {
+                    break;
+                }
+                // the slot is read, not moved (the list never reallocates, a running task may push)
+                let entry = unsafe {
+                    match &(&(*ls).tasks)[i] {
+                        Some(t) => Some((t.data, t.poll)),
+                        None => None,
+                    }
+                };
+                if let Some((data, poll)) = entry {
+                    unsafe { (*ls).polls += 1 };
+                    match unsafe { poll(data, cx, TAG) } {
+                        TaskPoll::Done => {
+                            let done = unsafe { (&mut (*ls).tasks)[i].take() };
+                            drop(done);
+                        }
+                        TaskPoll::Waiting => {}
+                    }
+                }
+                i += 1;
+            }
+        }
+        unsafe { CURRENT_LOCAL = prev };
+        r
+    }
+}
+
+pub fn spawn_local<F>(f: F) -> JoinHandle<F::Output>
+where
+    F: Future + 'static,
+    F::Output: 'static,
+{
+    let ls = unsafe { CURRENT_LOCAL };
+    assert!(!ls.is_null(), "`spawn_local` called from outside of a `task::LocalSet`");
+    push_task(ls, f)
 }
 pub fn spawn<F>(_f: F) -> JoinHandle<F::Output>
 where
     F: Future + 'static,
     F::Output: 'static,
 {
-    unimplemented!("tokio model: no executor")
+    unimplemented!("tokio model: only LocalSet tasks are modelled")
 }
 pub fn spawn_blocking<F, R>(_f: F) -> JoinHandle<R>
 where
     F: FnOnce() -> R + 'static,
     R: 'static,
 {
-    unimplemented!("tokio model: no executor")
+    unimplemented!("tokio model: no blocking pool")
 }
-pub async fn yield_now() {
-    unimplemented!("tokio model: no executor")
+/// Yields once: pending on the first poll without registering a timer. The executor model reports a
+/// round without timers as a deadlock, so a program that yields must also have a timer pending.
+pub struct YieldNow(bool);
+impl Future for YieldNow {
+    type Output = ();
+    fn poll(mut self: Pin<&mut Self>, _cx: &mut Context<'_>) -> Poll<()> {
+        if self.0 {
+            Poll::Ready(())
+        } else {
+            self.0 = true;
+            // re-poll at the current instant: a deadline of "now" keeps the clock where it is
+            if let Some(c) = crate::runtime::current_clock() {
+                crate::runtime::register_deadline(c);
+            }
+            Poll::Pending
+        }
+    }
+}
+pub fn yield_now() -> YieldNow {
+    YieldNow(false)
 }
